@@ -252,6 +252,13 @@ impl<'tcx> Cx<'tcx> {
                     if let Some(fl) = self.field_layout(ty, 0) {
                         o.put("fields", fl);
                     }
+                } else if let Some((bytes, fns)) = self.read_alloc_fnptrs(alloc_id, offset.bytes(), ty) {
+                    // a table whose only pointers are function pointers (`[fn(f64) -> f64; 2]`, `[(fn(..), TwoFloat); N]`)
+                    o.put("hex", J::s(bytes));
+                    o.put("fnptrs", fns);
+                    if let Some(fl) = self.field_layout(ty, 0) {
+                        o.put("fields", fl);
+                    }
                 } else if let Some(items) = self.read_str_array(alloc_id, offset.bytes(), ty) {
                     // `[&str; N]`: the strings themselves
                     o.put("k", J::s("strs"));
@@ -351,6 +358,15 @@ impl<'tcx> Cx<'tcx> {
         if depth > 3 {
             return None;
         }
+        if let ty::Array(elem, _) = ty.kind() {
+            // an array: the layout of one element
+            let el = tcx.layout_of(TypingEnv::fully_monomorphized().as_query_input(*elem)).ok()?;
+            let mut o = J::obj().set("array", J::Bool(true)).set("elem_ty", J::s(tystr(*elem))).set("elem_size", J::Int(el.size.bytes() as i128));
+            if let Some(inner) = self.field_layout(*elem, depth + 1) {
+                o.put("elem_fields", inner);
+            }
+            return Some(o);
+        }
         let ftys: Vec<Ty<'tcx>> = match ty.kind() {
             ty::Tuple(ts) if !ts.is_empty() => ts.iter().collect(),
             ty::Adt(def, args) if def.is_struct() => def.non_enum_variant().fields.iter().map(|f| f.ty(tcx, args)).collect(),
@@ -403,6 +419,52 @@ impl<'tcx> Cx<'tcx> {
             s.push_str(&format!("{:02x}", b));
         }
         Some(s)
+    }
+
+    /// bytes of a sized constant whose pointers all point to functions, with those functions by offset
+    fn read_alloc_fnptrs(&self, alloc_id: mir::interpret::AllocId, offset: u64, ty: Ty<'tcx>) -> Option<(String, J)> {
+        let tcx = self.tcx;
+        let layout = tcx.layout_of(TypingEnv::fully_monomorphized().as_query_input(ty)).ok()?;
+        if !layout.is_sized() {
+            return None;
+        }
+        let size = layout.size.bytes() as usize;
+        let alloc = match tcx.global_alloc(alloc_id) {
+            mir::interpret::GlobalAlloc::Memory(m) => m,
+            _ => return None,
+        };
+        let inner = alloc.inner();
+        let off = offset as usize;
+        if off + size > inner.len() || size > (1 << 16) || inner.provenance().ptrs().is_empty() {
+            return None;
+        }
+        let mut fns = Vec::new();
+        for (o, prov) in inner.provenance().ptrs().iter() {
+            let o = o.bytes() as usize;
+            if o < off || o >= off + size {
+                continue;
+            }
+            match tcx.global_alloc(prov.alloc_id()) {
+                mir::interpret::GlobalAlloc::Function { instance } => {
+                    let did = instance.def_id();
+                    fns.push(
+                        J::obj()
+                            .set("off", J::Int((o - off) as i128))
+                            .set("def", J::s(defpath(tcx, did)))
+                            .set("key", J::s(defkey(tcx, did)))
+                            .set("local", J::Bool(did.is_local()))
+                            .set("args", args_json(tcx, instance.args)),
+                    );
+                }
+                _ => return None,
+            }
+        }
+        let bytes = inner.inspect_with_uninit_and_ptr_outside_interpreter(off..off + size);
+        let mut s = String::with_capacity(size * 2);
+        for b in bytes {
+            s.push_str(&format!("{:02x}", b));
+        }
+        Some((s, J::Arr(fns)))
     }
 
     fn resolve_fn(&mut self, owner: DefId, did: DefId, args: ty::GenericArgsRef<'tcx>) -> J {
@@ -756,6 +818,12 @@ impl<'tcx> Cx<'tcx> {
             || dp.starts_with("core::option::Option::<&mut T>::")
             || dp.starts_with("std::result::Result::<T, E>::")
             || dp.starts_with("core::result::Result::<T, E>::")
+            || dp.starts_with("std::iter::adapters::") || dp.starts_with("core::iter::adapters::")
+            || dp.starts_with("std::iter::sources::") || dp.starts_with("core::iter::sources::")
+            || dp.starts_with("std::iter::Iterator::") || dp.starts_with("core::iter::Iterator::")
+            || dp.starts_with("std::iter::successors") || dp.starts_with("core::iter::successors")
+            || dp.starts_with("<std::iter::") || dp.starts_with("<core::iter::")
+            || dp.starts_with("std::ops::ControlFlow::<") || dp.starts_with("core::ops::ControlFlow::<")
             || dp.starts_with("std::bool::<impl bool>::then")
             || dp.starts_with("core::bool::<impl bool>::then")
             || (dp.contains("ops::Try>::branch") || dp.contains("ops::FromResidual") && dp.ends_with("::from_residual"))
